@@ -151,7 +151,7 @@ class Case:
     pass
 
 
-def run_case(P, scratch, backend_kind, nworkers, rng, flags=None, faults=None, kill_plan=None, pre_done=0, policy=None, late=None, max_tasks=None, tag='c', fs_gates=False):
+def run_case(P, scratch, backend_kind, nworkers, rng, flags=None, faults=None, kill_plan=None, pre_done=0, policy=None, late=None, max_tasks=None, tag='c', fs_gates=False, operator=None):
     """pre_done: number of leading tasks (creation order) already computed before the workers start (for filepack: and packed)"""
     c = Case()
     be = Backend(backend_kind, scratch, tag)
@@ -175,6 +175,30 @@ def run_case(P, scratch, backend_kind, nworkers, rng, flags=None, faults=None, k
     lib.FAULTS.clear()
     for k, plan in (faults or {}).items():
         lib.FAULTS[k] = plan
+    if operator is not None:
+        # an operator command runs once, at the moment `holder` is inside the function of `task` (its lock held, nothing published yet):
+        # ('cleanup-keep-locks' | 'cleanup-failed-only', holder, task)
+        what, holder, task = operator
+        inner, fired = policy, {'done': False}
+
+        def policy(s_, runnable, inner=inner):
+            pend = s_.waiting.get(holder)
+            if not fired['done'] and pend is not None and pend[0] == 'endOk' and pend[1] == task:
+                fired['done'] = True
+                st = be.store()
+                saved_store = jug.task.Task.store
+                tasks_, _ = sched.load_jugfile(P['path'], st)
+                try:
+                    if what == 'cleanup-keep-locks':
+                        st.cleanup(tasks_, keeplocks=True)
+                    else:
+                        for nm in st.listlocks():
+                            lk = st.getlock(nm)
+                            if lk.is_failed():
+                                lk.release()
+                finally:
+                    jug.task.Task.store = saved_store
+            return inner(s_, runnable) if inner is not None else None
     trace, results, loaded = sched.run_workers(P['path'], lambda w: be.store(), nworkers, rng, flags=flags, policy=policy, kill_plan=kill_plan,
                                                index=P['index'], late=late, max_tasks=max_tasks, fs_gates=fs_gates and backend_kind in ('file', 'filepack'))
     c.trace, c.results, c.res0, c.calls = trace, results, res0, list(lib.CALLS)
